@@ -868,6 +868,8 @@ fn finish_with_spaces(id: &str, def: &CheckDef, spaces: &[Space], ctx: &Ctx, t0:
     for (k, v) in &known_hits {
         println!("KNOWN-FINDING: property={id} {} [{} case(s), signature {}]", k.what, v.count, k.signature);
     }
+    // replays of earlier runs are stale by definition
+    let _ = std::fs::remove_dir_all(format!("{out_root}/replays/{id}"));
     if new_violations.is_empty() {
         let _ = std::io::stdout().flush();
         // leave without running destructors of possibly stuck threads
